@@ -21,6 +21,30 @@ class EventHandler(Protocol):
     __events__: Mapping[str, str]
 
 
+class _HandlerRef(weakref.ref):
+    """Weak reference to a handler, compared by identity of the referent.
+
+    A plain :class:`weakref.ref` hashes and compares like its referent
+    as long as it is alive: two distinct handlers that compare equal
+    (eg. instances of a dataclass) would be taken for one listener.
+    """
+    __slots__ = ('_ident',)
+
+    def __init__(self, handler, callback=None):
+        super().__init__(handler, callback)
+        self._ident = id(handler)
+
+    def __eq__(self, other):
+        if not isinstance(other, _HandlerRef):
+            return NotImplemented
+
+        handler = self()
+        return self is other or (handler is not None and handler is other())
+
+    def __hash__(self):
+        return self._ident
+
+
 class EventDispatcher:
     """Stores :class:`EventHandler` instances and dispatches events.
 
@@ -56,7 +80,7 @@ class EventDispatcher:
         assert isinstance(handler, EventHandler)
 
         # Populate _events
-        handler_ref = weakref.ref(handler, self._remove_weak_handler)
+        handler_ref = _HandlerRef(handler, self._remove_weak_handler)
         for event_name, method_name in handler.__events__.items():
             self._events.setdefault(event_name, set()).add(
                 (handler_ref, getattr(handler.__class__, method_name)))
@@ -72,7 +96,7 @@ class EventDispatcher:
         """Return whether or not a handler is into the dispatcher."""
         assert isinstance(handler, EventHandler)
 
-        return weakref.ref(handler) in self._handlers
+        return _HandlerRef(handler) in self._handlers
 
     def _remove_weak_handler(self, handler_ref: weakref.ref[EventHandler]):
         """Remove handler given its weak reference.
@@ -92,7 +116,7 @@ class EventDispatcher:
 
         Said handler will stop receiving all dispatched events.
         """
-        self._remove_weak_handler(weakref.ref(handler))
+        self._remove_weak_handler(_HandlerRef(handler))
 
     def dispatch(self, event_name: str, *args, **kwargs):
         """Broadcast an event to all registered listeners.
